@@ -340,9 +340,13 @@ class RaftNode(Entity):
         return events
 
     def _step_down(self, new_term: int) -> None:
+        # A vote is per term: forget it only when the term actually advances.
+        # (AppendEntries of the *current* term also steps down; clearing the vote
+        # there would let this node vote twice in one term.)
+        if new_term > self._current_term:
+            self._voted_for = None
         self._current_term = new_term
         self._state = RaftState.FOLLOWER
-        self._voted_for = None
         if self._heartbeat_event:
             self._heartbeat_event.cancel()
             self._heartbeat_event = None
